@@ -248,7 +248,7 @@ theorem buildJob_keeps {E : Engine} (hE : EngineKeeps E) (w0 : World) (d : Defec
       split
       · exact hs
       · generalize (if w1.oobRev = true then ts.eraseDups.reverse else ts.eraseDups) = ts'
-        have h2 := hE (oobCx1 d cx) ts' w0 w1 h1
+        have h2 := hE (oobCx1 d cx t) ts' w0 w1 h1
         unfold oobCx1 at h2
         generalize E.ifchangeCmd _ ts' w1 = res at h2
         obtain ⟨rv, w2⟩ := res
